@@ -232,9 +232,8 @@ func runC15(t *zsim.Tape, cfg *hlib.Config) *hlib.Outcome {
 			}
 			if edge {
 				imp := c15Imp{Target: dep.Name}
-				if t.Draw(4) == 0 { // selective import of a prefix of the exports
-					ex := exportsOf(dep)
-					imp.Items = ex[:1+t.Draw(len(ex))]
+				if t.Draw(4) == 0 { // selective import: a drawn non-empty subset of the exports, in drawn order
+					imp.Items = c15Subset(t, exportsOf(dep))
 				}
 				m.Imports = append(m.Imports, imp)
 			}
@@ -294,8 +293,7 @@ func runC15(t *zsim.Tape, cfg *hlib.Config) *hlib.Outcome {
 		if t.Draw(2) == 1 || len(main.Imports) == 0 && m == sc.Mods[len(sc.Mods)-1] {
 			imp := c15Imp{Target: m.Name}
 			if t.Draw(4) == 0 {
-				ex := exportsOf(m)
-				imp.Items = ex[:1+t.Draw(len(ex))]
+				imp.Items = c15Subset(t, exportsOf(m))
 			}
 			main.Imports = append(main.Imports, imp)
 		}
@@ -356,12 +354,20 @@ func runC15(t *zsim.Tape, cfg *hlib.Config) *hlib.Outcome {
 			}
 		case 2: // a name that exists in an imported module but was not in the selective list
 			for _, imp := range main.Imports {
-				if dep, ok := byName[imp.Target]; ok && imp.Items != nil && len(imp.Items) < len(exportsOf(dep)) {
-					hidden := exportsOf(dep)[len(imp.Items)]
-					if _, vis := visible[hidden]; !vis && !strings.HasSuffix(hidden, "型") {
-						mainStmts = append(mainStmts, fmt.Sprintf("（显示：（%s））", hidden))
-						expCode = 42
+				dep, ok := byName[imp.Target]
+				if !ok || imp.Items == nil {
+					continue
+				}
+				hidden := ""
+				for _, ex := range exportsOf(dep) {
+					if _, vis := visible[ex]; !vis && !strings.HasSuffix(ex, "型") {
+						hidden = ex
+						break
 					}
+				}
+				if hidden != "" {
+					mainStmts = append(mainStmts, fmt.Sprintf("（显示：（%s））", hidden))
+					expCode = 42
 					break
 				}
 			}
@@ -450,6 +456,24 @@ func runC15(t *zsim.Tape, cfg *hlib.Config) *hlib.Outcome {
 	}
 	if strings.Join(res.Display, "\n") != strings.Join(expDisp, "\n") {
 		return fail(class+":"+c15DiffKind(res.Display, expDisp)+"-before-error", "marker trace before the error differs from the reference loader")
+	}
+	return out
+}
+
+// c15Subset draws a non-empty subset of xs in a drawn order (zero tape = the first element only).
+func c15Subset(t *zsim.Tape, xs []string) []string {
+	var out []string
+	for i, x := range xs {
+		if i == 0 || t.Draw(2) == 1 {
+			out = append(out, x)
+		}
+	}
+	if len(out) > 1 && t.Draw(4) == 3 {
+		out = out[1:] // a list that does not start with the first export
+	}
+	for i := len(out) - 1; i > 0; i-- {
+		j := i - t.Draw(i+1)
+		out[i], out[j] = out[j], out[i]
 	}
 	return out
 }
